@@ -139,7 +139,11 @@ const (
 	kNum
 )
 
-var kindNames = []string{"max_data", "sd_bidi_local", "sd_bidi_remote", "sd_uni", "streams_bidi", "streams_uni", "cid", "datagram", "idle", "udp"}
+var kindNames = []string{"max_data", "sd_bidi_local", "sd_bidi_remote", "sd_uni", "streams_bidi", "streams_uni", "cid", "datagram", "idle", "udp", "cid_rotate"}
+
+// kCIDRotate: a simlimits scenario (not a component of the limit vectors): connection ID
+// rotation with Retire Prior To at the advertised active_connection_id_limit.
+const kCIDRotate = kNum
 
 // transport parameter IDs (RFC 9000 section 18.2, RFC 9221) as THIS reader knows them; the
 // model takes them from the generated constants instead.
@@ -245,10 +249,12 @@ func frStream(id uint64, off uint64, data []byte) []byte {
 	return append(b, data...)
 }
 
-func frNewCID(seq uint64) []byte {
+func frNewCID(seq uint64) []byte { return frNewCIDRPT(seq, 0) }
+
+func frNewCIDRPT(seq, retirePriorTo uint64) []byte {
 	b := []byte{0x18}
 	b = quicvarint.Append(b, seq)
-	b = quicvarint.Append(b, 0)
+	b = quicvarint.Append(b, retirePriorTo)
 	b = append(b, 8, byte(0xc0+seq))
 	for i := 1; i < 8; i++ {
 		b = append(b, byte(i))
@@ -273,7 +279,7 @@ func frDatagram(l int) []byte {
 // ---- one probed connection --------------------------------------------------------------
 
 type aeEvent struct {
-	kind int // 0 data, 1 open, 2 cid, 3 datagram
+	kind int // 0 data, 1 open, 2 cid, 3 datagram, 4 cid rotation (retire n, add one), 5 the client's own rotation
 	ty   int // data: 0 bidi-local 1 bidi-remote 2 uni; open: 1 bidi 2 uni
 	n    int64
 }
@@ -286,12 +292,16 @@ func (e aeEvent) coq() string {
 		return u.App("EvOpen", u.Z(int64(e.ty)), u.Z(e.n))
 	case 2:
 		return u.App("EvCID", u.Z(e.n))
+	case 4:
+		return u.App("EvCIDRotate", u.Z(e.n))
+	case 5:
+		return "EvRetireCID"
 	}
 	return u.App("EvDgram", u.Z(e.n))
 }
 
 func (e aeEvent) String() string {
-	return fmt.Sprintf("%s(%d,%d)", []string{"data", "open", "cid", "dgram"}[e.kind], e.ty, e.n)
+	return fmt.Sprintf("%s(%d,%d)", []string{"data", "open", "cid", "dgram", "cid-rotate", "client-rotate"}[e.kind], e.ty, e.n)
 }
 
 // prober tracks what the (simulated) peer has used so far and turns abstract events into frames.
@@ -301,6 +311,7 @@ type prober struct {
 	opened    [3]int64 // index 1 bidi, 2 uni (server-initiated): highest stream number opened
 	cids      int64    // NEW_CONNECTION_ID frames sent
 	localOpen bool
+	trace     []string // the connection ID frames sent, for the failing-input report
 }
 
 var dataStreamID = [3]uint64{0, 1, 3}
@@ -331,14 +342,43 @@ func (p *prober) do(e aeEvent) (int64, string) {
 		var msg string
 		for i := int64(0); i < e.n; i++ {
 			p.cids++
+			p.trace = append(p.trace, fmt.Sprintf("NEW_CONNECTION_ID{seq:%d rpt:0}", p.cids))
 			code, msg = p.vc.Frames(frNewCID(uint64(p.cids)))
 			if code != 0 {
 				return code, msg
 			}
 		}
 		return code, msg
+	case 4:
+		// one NEW_CONNECTION_ID with a fresh sequence number; Retire Prior To = the sequence number
+		// in use + n: retires the ID in use and the n-1 lowest queued ones (they are contiguous)
+		active, _ := p.vc.CIDState()
+		p.cids++
+		p.trace = append(p.trace, fmt.Sprintf("NEW_CONNECTION_ID{seq:%d rpt:%d}(client uses seq %d)", p.cids, active+uint64(e.n), active))
+		return p.vc.Frames(frNewCIDRPT(uint64(p.cids), active+uint64(e.n)))
+	case 5:
+		p.vc.ClientRotate()
+		p.trace = append(p.trace, "client switches to the next connection ID and retires seq 0")
+		return 0, ""
 	}
 	return p.vc.Frames(frDatagram(int(e.n)))
+}
+
+// normalize adapts a connection ID event to the state of the connection: the client's own
+// rotation happens once (from sequence number 0, with a spare ID), and a peer cannot retire more
+// IDs than the client stores.
+func (p *prober) normalize(e aeEvent) (aeEvent, bool) {
+	active, queued := p.vc.CIDState()
+	switch e.kind {
+	case 5:
+		return e, active == 0 && queued > 0
+	case 4:
+		if e.n > int64(1+queued) {
+			e.n = int64(1 + queued)
+		}
+		return e, e.n >= 1
+	}
+	return e, true
 }
 
 // ---- case generation ------------------------------------------------------------------
@@ -559,6 +599,7 @@ func genEvents(r *u.Rng, adv, enf [kNum]int64) []aeEvent {
 	var opened [3]int64
 	cids := int64(1)
 	n := r.Range(0, 6)
+	rotated := false
 	target := func(used int64, cands ...int64) int64 {
 		var c []int64
 		for _, x := range cands {
@@ -572,7 +613,21 @@ func genEvents(r *u.Rng, adv, enf [kNum]int64) []aeEvent {
 		return c[r.Intn(len(c))]
 	}
 	for i := 0; i < n; i++ {
-		switch r.Intn(5) {
+		switch r.Intn(7) {
+		case 5:
+			// the peer rotates: retires k stored IDs (incl. the one in use), adds one
+			k := []int64{1, 1, 2, cids}[r.Intn(4)]
+			if k > cids {
+				k = cids
+			}
+			evs = append(evs, aeEvent{4, 0, k})
+			cids += 1 - k
+		case 6:
+			if !rotated && cids > 1 {
+				rotated = true
+				evs = append(evs, aeEvent{5, 0, 0})
+				cids--
+			}
 		case 0, 1:
 			ty := r.Intn(3)
 			var nn int64
@@ -634,7 +689,9 @@ func conformantPush(kind int, adv [kNum]int64) (evs []aeEvent, need [kNum]int64,
 			return nil, need, false
 		}
 		need[kCID] = n + 1
-		return []aeEvent{{2, 0, n}}, need, true
+		// fill the limit, then rotate at the boundary (RFC 9000 5.1.1: an endpoint may add an ID on
+		// top if the same frame retires one): the ID in use, twice, then two at once, then all
+		return []aeEvent{{2, 0, n}, {4, 0, 1}, {4, 0, 1}, {4, 0, 2}, {4, 0, n + 1}, {2, 0, n}, {4, 0, 1}}, need, true
 	case kDgram:
 		// a frame only reaches the client's frame handling inside a packet that fits both the
 		// advertised max_udp_payload_size and the receive buffer (larger packets are dropped, which
@@ -909,9 +966,19 @@ func runAdvEnf(w *bufio.Writer, seed uint64, n int, args []string) {
 					fmt.Sprintf("%s wire=%x record=%x scid=%x", desc, iscid, rec.InitialSourceConnectionID, vc.SrcConnID))
 			}
 
-			// what the model gets as the parameter list: spec-driven: the spec's extension after
-			// construction (ID(), Value()); plain: the entries read from the wire
-			var plist []string
+			// what the model gets as the parameter list: spec-driven: the SPEC's extension (ID(),
+			// Value()), which a dial leaves as the caller wrote it (the connection works on its
+			// own copy: suppression, per-dial order and the source connection ID go there), plus
+			// the suppression list, the randomize flag and the source connection ID, from which
+			// the model derives what has to be on the wire; plain: the entries read from the wire
+			var plist, suppress []string
+			randomize := false
+			if sp := specOf(vc); sp != nil && specDriven {
+				randomize = sp.RandomizeTransportParameters
+				for _, id := range sp.SuppressTransportParameters {
+					suppress = append(suppress, u.ZU(id))
+				}
+			}
 			if ids, vals, ok := quic.VerifAdvEnfSpecParams(specOf(vc)); ok && specDriven {
 				for j := range ids {
 					plist = append(plist, u.Pair(u.ZU(ids[j]), u.Hex(vals[j])))
@@ -940,6 +1007,10 @@ func runAdvEnf(w *bufio.Writer, seed uint64, n int, args []string) {
 			sawErr := false
 			var evStrs []string
 			for _, e := range evs {
+				e, ok := pr.normalize(e)
+				if !ok {
+					continue
+				}
 				code, _ := pr.do(e)
 				obs = append(obs, u.Pair(e.coq(), u.Z(code)))
 				evStrs = append(evStrs, fmt.Sprintf("%s=>%d", e, code))
@@ -956,7 +1027,7 @@ func runAdvEnf(w *bufio.Writer, seed uint64, n int, args []string) {
 			if sawErr || specDriven && !cfg.isDefault() {
 				nt = 1
 			}
-			fmt.Fprintf(w, "CASE %d %s\n", nt, u.App("AdvCase", u.B(specDriven), u.List(plist), cfg.coq(), u.Z(int64(peer.MaxIdleTimeout)),
+			fmt.Fprintf(w, "CASE %d %s\n", nt, u.App("AdvCase", u.B(specDriven), u.List(plist), u.List(suppress), u.B(randomize), u.Hex(vc.SrcConnID), cfg.coq(), u.Z(int64(peer.MaxIdleTimeout)),
 				u.Hex(ext), ov, u.ZList(adv[:]), u.ZList(recVals[:]), enfList, u.Z(enf.IdleTimeout), u.List(obs)))
 			if i < 3 || i == len(clients) {
 				fmt.Fprintf(w, "SAMPLE\t%s adv=%v enforced=%+v probes=%v\n", desc, adv, enf, evStrs)
@@ -990,19 +1061,41 @@ func runAdvEnf(w *bufio.Writer, seed uint64, n int, args []string) {
 					continue
 				}
 				vk.ApplyPeer(peer)
-				pk := &prober{vc: vk}
-				for _, e := range pevs {
-					code, msg := pk.do(e)
-					if code != 0 {
-						lb := label(client, k, cfg, need, genf)
-						dist["push-error/"+lb]++
-						monfail("advenf/"+clientKey(client)+"/"+kindNames[k]+"/"+lb,
-							fmt.Sprintf("a peer within the advertised %s limit gets transport error 0x%x (%s)", kindNames[k], code, msg),
-							fmt.Sprintf("%s advertised=%v push=%v", desc, adv, pevs))
-						break
+				variants := [][]aeEvent{pevs}
+				if k == kCID {
+					// the same after the client's own post-handshake rotation (it retires sequence number 0,
+					// the peer replaces it and then rotates at the boundary)
+					variants = append(variants, []aeEvent{pevs[0], {5, 0, 0}, {2, 0, 1}, {4, 0, 1}, {4, 0, 1}, {4, 0, 2}})
+				}
+				for vi, evs := range variants {
+					if vi > 0 {
+						vk.Close()
+						if vk, err = build(cfg); err != nil {
+							monfail("advenf/build/"+clientKey(client), err.Error(), desc)
+							break
+						}
+						vk.ApplyPeer(peer)
+					}
+					pk := &prober{vc: vk}
+					for _, e := range evs {
+						e, ok := pk.normalize(e)
+						if !ok {
+							continue
+						}
+						code, msg := pk.do(e)
+						if code != 0 {
+							lb := label(client, k, cfg, need, genf)
+							dist["push-error/"+lb]++
+							monfail("advenf/"+clientKey(client)+"/"+kindNames[k]+"/"+lb,
+								fmt.Sprintf("a peer within the advertised %s limit gets transport error 0x%x (%s)", kindNames[k], code, msg),
+								fmt.Sprintf("%s advertised=%v push=%v frames=%v", desc, adv, evs, pk.trace))
+							break
+						}
 					}
 				}
-				vk.Close()
+				if vk != nil {
+					vk.Close()
+				}
 				dist["push"]++
 			}
 			// a spec value serving a second connection (documented use: "one spec value can serve
